@@ -307,6 +307,14 @@ def specs(tier):
     out += [dict(module="checks.c14", scenario="Intersect", params=dict(A=a, B=b, scale=sc)) for a, b in pairs[1:3 if tier == "quick" else len(pairs)] for sc in (["1/2000"] if tier == "quick" else ["1/2000", "1/100", "5000"])]
     for a, b in [("qa", "qb"), ("ca", "la")] + ([("qa", "ca"), ("ca", "qb")] if tier != "quick" else []):
         out.append(dict(module="checks.c14", scenario="FilterStage", params=dict(A=a, B=b), time_budget=60 if tier == "quick" else 900))
+    # curves with quadratic pieces: concrete placements, completeness decided over all parameter pairs (checks/curvedops.py)
+    from checks.curvedops import CONFIGS
+
+    keep = {("lens", "sq1", "3/2"), ("lens", "slab", "3/2"), ("dome", "sq2", "3"), ("blob", "lens", "0"), ("lens", "lens", "1"), ("bite", "sq2", "1"), ("pill", "slab", "1"), ("lens", "vee", "0")}
+    for A, B, sh, sc in CONFIGS:
+        if tier != "quick" or (A, B, sh[0]) in keep:
+            out.append(dict(module="checks.curvedops", scenario="CurvedIntersect", params=dict(A=A, B=B, shift=list(sh), scaleB=str(sc), num="float"), time_budget=600))
+    out.append(dict(module="checks.curvedops", scenario="CurvedIntersect", params=dict(A="lens", B="slab", shift=["1", "-3"], num="frac"), time_budget=600))
     if tier != "quick":
         out += [dict(module="checks.c14", scenario="Intersect", params=dict(A=a, B=b, dof=2, lim=2), time_budget=1500) for a, b in [("square", "unit"), ("tri", "unit"), ("penta", "tri")]]
         out += [dict(module="checks.c14", scenario="Intersect", params=dict(A=a, B=b, direction=(1, 2))) for a, b in pairs]
